@@ -33,6 +33,7 @@ func runC04(c *Ctx, r *Report) {
 	defer c04r13(c, r)
 	defer c04r14(c, r)
 	defer c04r15(c, r)
+	defer c02r13(c, r) // the rank key is computed without 32-bit overflow
 	defer c01r3(c, r) // a cached chunk result is only served to the pattern it was computed for
 	// ---------------- R1 ----------------
 	r.rule("C04-R1", "H (constant inequalities) + B", "P1",
